@@ -72,6 +72,7 @@ def run_programs(spec):
     sh = Shard(max_per_sig=3)
     rng = random.Random("c02/" + pipework.prog_seed(spec, -1))
     per_op = spec.get("per_op", 2)
+    napp = 0
     for p, tag in pipework.base_programs(spec):
         r0 = core.api_run(p.name, p.text(), clock=False)
         if r0.outcome != "ok" or r0.errors():
@@ -85,7 +86,16 @@ def run_programs(spec):
                     "site": q.lines[q.index_of_lineno(exp)].meta.get("site")}
             r = core.api_run(q.name, src, clock=False)
             sh.case(q.name + "\0" + src)
-            judge(sh, q, o, exp, r, case)
+            ok = judge(sh, q, o, exp, r, case)
+            napp += 1
+            if ok and napp % 4 == 0:
+                # the same file once more in the same process: the diagnostic must not be remembered away
+                r2 = core.api_run(q.name, src, clock=False)
+                sh.count("c02.reported_again_on_second_run")
+                if sorted(r2.diags) != sorted(r.diags) or r2.outcome != r.outcome:
+                    sh.violation("second_run_differs", (o["id"],), dict(case, twice=True),
+                                 {"op": o["id"], "only_first": [d for d in r.diags if d not in r2.diags][:3],
+                                  "only_second": [d for d in r2.diags if d not in r.diags][:3]})
             lk = q.lines[q.index_of_lineno(exp)].kind
             sh.cover("op_contexts", "%s/%s/%d" % (o["id"], lk, q.lines[q.index_of_lineno(exp)].depth))
         sh.sample({"base": p.name, "operators": "all applicable of %d" % len(viol.OPS)}, cap=1)
@@ -198,6 +208,10 @@ def replay(case, sh):
     # line metadata (site) is not serialised: recompute nothing, replay judges presence only
     r = core.api_run(q.name, q.text(), clock=False)
     sh.evaluations += 1
+    if case.get("twice"):
+        r2 = core.api_run(q.name, q.text(), clock=False)
+        if sorted(r2.diags) != sorted(r.diags):
+            sh.violation("second_run_differs", (o["id"],), case, {"op": o["id"]})
     if case.get("site"):
         i = q.index_of_lineno(case["expected_line"])
         q.lines[i].meta["site"] = case["site"]
